@@ -359,6 +359,7 @@ class World(object):
         name = op["op"]
         extra = {}
         finish = None
+        self.run.call_events = 0
         try:
             if name == "store":
                 pid = None if op.get("pid") is None else self.pids[op["pid"]]
@@ -436,6 +437,10 @@ class World(object):
                 raise ValueError("unknown op %r" % (name,))
         except (seam.SimCrash, seam.SimAbort):
             raise
+        except seam.SimLivelock:
+            # the call spins: reported as an outcome no model ever expects; the engines attribute it to C08
+            out = ("exc", "DoesNotTerminate")
+            extra["msg"] = "more than %d file-system events without returning" % seam.CALL_EVENT_CAP
         except Exception as e:  # outcome of the call, not of the harness
             out = ("exc", type(e).__name__)
             extra["msg"] = str(e)[:300]
